@@ -705,7 +705,7 @@ const streamRule = "1..6 write batches of 1..25 elements (4 series, unique eleme
 
 func TestVerifStreamC08(t *testing.T) {
 	verifkit.Run(t, verifkit.Spec[sCase]{
-		Property: "C08", Unit: "stream_criteria",
+		Property: "C08", Unit: "stream_criteria", CrashReplay: true,
 		Rule:  streamRule + "; non-trivial = a selective criteria query over a tag covered by an inverted or skipping rule, after a flush",
 		Known: streamKnown,
 		Gen: func(t *rapid.T, ks *verifkit.KnownSet) sCase {
@@ -744,7 +744,7 @@ func sLabel(x *verifkit.Ctx, st sStats) {
 
 func TestVerifStreamC09(t *testing.T) {
 	verifkit.Run(t, verifkit.Spec[sCase]{
-		Property: "C09", Unit: "stream_order",
+		Property: "C09", Unit: "stream_order", CrashReplay: true,
 		Rule: streamRule + "; here every query is ordered (time or the inverted rule of code, asc/desc) and most have small limits / offsets; " +
 			"non-trivial = an ordered query whose limit/offset cuts the matching set, over >= 2 parts",
 		Known: streamKnown,
@@ -780,7 +780,7 @@ func TestVerifStreamC09(t *testing.T) {
 
 func streamL1Spec(pid string) verifkit.Spec[sCase] {
 	return verifkit.Spec[sCase]{
-		Property: pid, Unit: "stream_l1",
+		Property: pid, Unit: "stream_l1", CrashReplay: true,
 		Rule: streamRule + "; here the emphasis is on the history: flush and merges of chosen parts between the writes, full and windowed " +
 			"reads after each; non-trivial = elements read back after a merge that followed their write",
 		Known: streamKnown,
@@ -810,7 +810,7 @@ func TestVerifStreamC03(t *testing.T) { verifkit.Run(t, streamL1Spec("C03")) }
 
 func TestVerifStreamC15(t *testing.T) {
 	verifkit.Run(t, verifkit.Spec[sCase]{
-		Property: "C15", Unit: "stream_vec_parity",
+		Property: "C15", Unit: "stream_vec_parity", CrashReplay: true,
 		Rule: streamRule + "; additionally every query is answered by the columnar path as banyand/query/processor.go dispatches it on a standalone node " +
 			"(VecExecutable -> ExecuteVectorized -> BuildElementsFromBatches -> tag filter -> offset/limit slice) with batch size in {1,2,7,1024}; oracle: the " +
 			"same elements in the same order as the row path (positions whose sort keys are equal may hold different elements); non-trivial = the columnar " +
